@@ -4,6 +4,7 @@ CONSTANTS
   FocusGroups <- KindGroups
   Modes <- BothModes
   MaxWeight = 3
+  RouteWeight = 0
   MaxBuilds = 2
   KeyVariant = "tagged"
 VIEW View
